@@ -20,10 +20,14 @@ EXTENDS Integers, Sequences, FiniteSets, TLC, Json
 
 CONSTANTS M,        \* last day ordinal
           MaxLen,   \* maximal number of entries
-          NBad      \* number of malformed-entry kinds
+          NBad,     \* number of malformed-entry kinds
+          Wide      \* TRUE: a longer calendar with proper ranges only (a < b), so that lists of ranges which overlap,
+                    \* nest, touch and BRIDGE one another (one range starting inside a second and ending inside a
+                    \* third, with uncovered days in between) are enumerated without the malformed kinds
 
 Days == 0..M
-Entry == [k : {0}, a : Days, b : {0}] \cup [k : {1}, a : Days, b : Days] \cup [k : {2}, a : 1..NBad, b : {0}]
+Entry == IF Wide THEN {e \in [k : {1}, a : Days, b : Days] : e.a < e.b}
+         ELSE [k : {0}, a : Days, b : {0}] \cup [k : {1}, a : Days, b : Days] \cup [k : {2}, a : 1..NBad, b : {0}]
 
 VARIABLES entries,   \* the input list (chosen in Init, never changes)
           pc,        \* "parse" | "expand" | "done" | "error"
